@@ -443,10 +443,15 @@ class AhocorasickTokenizer(Tokenizer):
         """Override get_extractors() to filter out extractors
         that can't possibly match."""
         unique_extractors = set(self.unfiltered_extractors)
-        for _, extractors in self.case_sensitive_filter.iter(text):
-            unique_extractors.update(extractors)
-        for _, extractors in self.case_insensitive_filter.iter(text.lower()):
-            unique_extractors.update(extractors)
+        # an automaton without any strings cannot be searched
+        if len(self.case_sensitive_filter):
+            for _, extractors in self.case_sensitive_filter.iter(text):
+                unique_extractors.update(extractors)
+        if len(self.case_insensitive_filter):
+            for _, extractors in self.case_insensitive_filter.iter(
+                text.lower()
+            ):
+                unique_extractors.update(extractors)
         return sorted(
             unique_extractors, key=lambda e: self.extractor_order[id(e)]
         )
